@@ -2,8 +2,8 @@
    Property theorems only; proofs are in Ebnf/*_proofs.v.  small_factors and the two
    thresholds are regenerated from lark/utils.py and lark/load_grammar.py on every run. *)
 From Coq Require Import ZArith List Bool String Lia.
-From LV Require Import Base.Prelude Gen.Consts Gen.SmallFactors Ebnf.Repeat
-  Ebnf.SmallFactors_proofs Ebnf.Repeat_proofs.
+From LV Require Import Base.Prelude Gen.Consts Gen.SmallFactors Cfg.Grammar Ebnf.Repeat
+  Ebnf.SmallFactors_proofs Ebnf.Repeat_proofs Ebnf.Compile Ebnf.Compile_proofs.
 Import ListNotations.
 
 (* small_factors terminates (fuel n+1 suffices, no assertion fails) for every n >= 0 and
@@ -58,4 +58,63 @@ Example C09_example :
 Proof.
   destruct (generate_repeats_count 3 60 ltac:(lia)) as (e & He & Hc).
   exists e. split; auto. repeat split; try (apply Hc; simpl; lia); intros H; apply Hc in H; simpl in H; lia.
+Qed.
+
+(* ---- the EBNF-to-BNF compilation as a whole (Ebnf/Compile.v: EBNF_to_BNF with its rule cache and
+   counter, SimplifyRule_Visitor, one Rule per alternative) on arbitrary nested expressions -------- *)
+
+(* For every expression e over the user's symbols (sequences, alternations, ? * + ~n ~n..m nested in
+   any way): in the compiled grammar (alternatives of the rule + all helper rules) the rule derives w
+   iff e denotes w, where eden gives ? exactly 0..1, * any number, + at least one and ~mn..mx exactly
+   mn..mx consecutive occurrences of the operand's language. *)
+Theorem C09_compile_preserves_language e G :
+  compile e = Ok G -> forall w, derives G nat Nat.eqb [NT 0] w <-> eden e w.
+Proof. exact (compile_preserves_language e G). Qed.
+Print Assumptions C09_compile_preserves_language.
+
+(* the same after "Filter out unused rules" (what Lark.rules holds) *)
+Theorem C09_compile_pruned_preserves_language e G :
+  compile_pruned e = Ok G -> forall w, derives G nat Nat.eqb [NT 0] w <-> eden e w.
+Proof. exact (compile_pruned_preserves_language e G). Qed.
+Print Assumptions C09_compile_pruned_preserves_language.
+
+(* the compiler succeeds (no GrammarError, small_factors within its fuel) whenever 0 <= mn <= mx in every ~ *)
+Theorem C09_compile_total e : ranges_ok e -> exists G, compile e = Ok G.
+Proof. exact (compile_total e). Qed.
+Print Assumptions C09_compile_total.
+
+(* Non-vacuity:  start: X0 (X1 | X2+ X0?)* (X1)~2..3 | X2+ X1~50..52 *)
+Definition C09_ex : expr :=
+  Alt [Seq [Sym 0; Star (Alt [Seq [Sym 1]; Seq [Plus (Sym 2); Opt (Sym 0)]]); Rep (Alt [Seq [Sym 1]]) 2 3];
+       Seq [Plus (Sym 2); Rep (Sym 1) 50 52]].
+
+Definition C09_ex_rules : grammar :=
+  map (fun p => mkRule (fst p) (snd p))
+  [(0, [T 0; NT 2; T 1; T 1]); (0, [T 0; NT 2; T 1; T 1; T 1]); (0, [T 0; T 1; T 1]); (0, [T 0; T 1; T 1; T 1]);
+   (0, [NT 1; NT 5; NT 6]);
+   (1, [T 2]); (1, [NT 1; T 2]);                                         (* __start_plus: shared by both X2+ *)
+   (2, [T 1]); (2, [NT 1; T 0]); (2, [NT 1]);
+   (2, [NT 2; T 1]); (2, [NT 2; NT 1; T 0]); (2, [NT 2; NT 1]);          (* __start_star *)
+   (3, [T 1; T 1]); (4, [NT 3; NT 3; NT 3; NT 3; NT 3]); (5, [NT 4; NT 4; NT 4; NT 4; NT 4]);   (* 50 = ((1*2)*5)*5 *)
+   (6, []); (6, [T 1]); (6, [T 1; T 1])].                                (* repeat_opt: 0..2 more *)
+
+Example C09_compile_example : compile_pruned C09_ex = Ok C09_ex_rules.
+Proof. vm_compute. reflexivity. Qed.
+
+Example C09_compile_example_sentence :
+  eden C09_ex [0; 2; 2; 1; 1] /\ derives C09_ex_rules nat Nat.eqb [NT 0] [0; 2; 2; 1; 1].
+Proof.
+  assert (H : eden C09_ex [0; 2; 2; 1; 1]).
+  { left. exists [0], [2; 2; 1; 1]. split; [reflexivity|]. split; [reflexivity|].
+    exists [2; 2], [1; 1]. split; [reflexivity|]. split.
+    - exists 1. apply (powS nat _ 0 [2; 2] []); [|constructor].
+      right. left. exists [2; 2], []. split; [reflexivity|]. split.
+      + exists 2. split; [lia|]. apply (powS nat _ 1 [2] [2]); [reflexivity|].
+        apply (powS nat _ 0 [2] []); [reflexivity|constructor].
+      + exists [], []. split; [reflexivity|]. split; [|reflexivity]. exists 0. split; [lia|constructor].
+    - exists [1; 1], []. split; [reflexivity|]. split; [|reflexivity].
+      exists 2. split; [simpl; lia|]. apply (powS nat _ 1 [1] [1]).
+      + left. exists [1], []. split; [reflexivity|]. split; reflexivity.
+      + apply (powS nat _ 0 [1] []); [|constructor]. left. exists [1], []. split; [reflexivity|]. split; reflexivity. }
+  split; auto. apply (C09_compile_pruned_preserves_language C09_ex C09_ex_rules C09_compile_example). exact H.
 Qed.
